@@ -15,9 +15,7 @@
    tree, so the shrinker may delete tokens freely).  Normalisation done here, before model and printer
    see the tree: else/else-if directly under an `if` come first among its kids (the order in which
    iterateStatement visits them) and are blocks anywhere else; of several `else` only the last stays
-   an else; a use with no visible variable of its kind is an `other` statement; a do-while anywhere
-   inside the body of another do-while is a while loop (the generic parser dies on nested do-while:
-   loadDoWhileStatement never pops its statement context — not an OKL rule, kept out by construction).
+   an else; a use with no visible variable of its kind is an `other` statement.
 
    Output per case:   R <generic parse><7 flags>     the checker model's verdict for every translator
                       S <generic parse><7 flags>     the rules' verdict
@@ -216,9 +214,7 @@ let rec conv (sc : scope) (in_do : bool) (r : raw) : stmt * string * scope =
     let (ks, txt) = body sc r.rkids in
     (Node (KBlock, ks), "{ " ^ txt ^ "}", sc)
   | 'W' -> let (ks, txt) = body sc r.rkids in (Node (KWhile false, ks), "while (n > 2) { " ^ txt ^ "}", sc)
-  | 'w' when not in_do ->
-    let (ks, txt) = conv_list sc true r.rkids in (Node (KWhile true, ks), "do { " ^ txt ^ "} while (n > 3);", sc)
-  | 'w' -> let (ks, txt) = body sc r.rkids in (Node (KWhile false, ks), "while (n > 2) { " ^ txt ^ "}", sc)
+  | 'w' -> let (ks, txt) = body sc r.rkids in (Node (KWhile true, ks), "do { " ^ txt ^ "} while (n > 3);", sc)
   | 'S' -> let (ks, txt) = body sc r.rkids in (Node (KSwitch, ks), "switch (n) { case 0: " ^ txt ^ "}", sc)
   | 'B' -> let (ks, txt) = body sc r.rkids in (Node (KBlock, ks), "{ " ^ txt ^ "}", sc)
   | 'b' -> (Node (KBreak, []), "break;", sc)
